@@ -57,9 +57,17 @@ def handle (toks : List String) : Option String :=
         | none => "bad-analysis"
         | some an =>
           let (lineToks, tail) :=
-            if cmd = "mna.solve" || cmd = "mna.matrix" then (more, ([] : List String))
+            if cmd = "mna.solve" || cmd = "mna.matrix" || cmd = "mna.alloc" || cmd = "mna.expand" then (more, ([] : List String))
             else (more.dropLast, more.getLast?.getD [])
           let lines := lineToks.map (fun l => " ".intercalate l)
+          if cmd = "mna.expand" then
+            -- one round of `_expand` over the parsed lines: `name|type|nodes|args` per resulting line
+            match lines.mapM parseLine with
+            | .error msg => s!"error {msg}"
+            | .ok raw0 =>
+              "ok " ++ " ".intercalate ((expandOnce raw0).map (fun c =>
+                s!"{c.name}|{c.ty}|{",".intercalate c.nodes}|{",".intercalate c.args}"))
+          else
           match elaborate an lines with
           | .error msg => s!"error {msg}"
           | .ok e =>
@@ -71,10 +79,12 @@ def handle (toks : List String) : Option String :=
                 if !(checkSolves an e x) then "singular" else
                 let vs := e.cls.zipIdx.flatMap (fun (c, i) => c.map (fun n => s!"{n}={volt x i}"))
                 let js := e.brs.zipIdx.map (fun (b, m) => s!"{b}={x (.br m)}")
-                let is := e.cpts.filterMap (fun (n, c) => (throughCurrent an x c).map (fun v => s!"{n}={v}"))
+                -- currents of the components without a branch unknown, as `MNA._solve` reconstructs them
+                let is := e.cpts.filterMap (fun (n, c) =>
+                  if (owned c).isEmpty then (reportedCurrent an.kind an.s x c).map (fun v => s!"{n}={v}") else none)
                 "ok V " ++ " ".intercalate vs ++ " J " ++ " ".intercalate js ++ " I " ++ " ".intercalate is
             else if cmd = "mna.matrix" then
-              let st := stampAll an.kind an.s cs
+              let st := (stampAll an.kind an.s cs).append e.extra     -- as the code assembles it
               let us := unknowns e
               let nm (ix : Ix) : String := match ix with
                 | .node k => "n:" ++ className e k
@@ -86,6 +96,9 @@ def handle (toks : List String) : Option String :=
                 let v := entryZ st r
                 if v.isZero then none else some s!"{nm r}={v}")
               "ok A " ++ " ".intercalate ents ++ " Z " ++ " ".intercalate zs
+            else if cmd = "mna.alloc" then
+              -- `unknown_branch_currents` as the model of the `MNA.__init__` loop allocates them
+              "ok U " ++ " ".intercalate e.brs
             else
               match parseAssign e tail with
               | .error msg => s!"error {msg}"
